@@ -2,8 +2,10 @@
    com/flag.go (the Flag word), device/id.go (ID.Read/Write), data/chunk_base.go (ReadFrom under a
    Limit, WriteTo).  Definitions only.
 
-   A packet is (id, job, flags, tags, device, payload); fixed-width fields are Z with range
-   hypotheses in the theorems (wf), bytes are Z in [0,256).  A reader is a src (Model/Codec.v):
+   A packet is (id, job, flags, tags, device, payload buffer, read cursor of the payload Chunk);
+   fixed-width fields are Z with range hypotheses in the theorems (wf), bytes are Z in [0,256).
+   p_pay is the WHOLE buffer (Chunk.buf), p_rpos the read cursor (Chunk.rpos): typed reads, Read,
+   Seek and WriteTo move it, Payload()/Remaining() and Chunk.MarshalStream see only buf[rpos:].  A reader is a src (Model/Codec.v):
    the list of chunks the successive Read calls of the underlying io.Reader deliver. *)
 From XMT Require Import Base.Prelude Model.Codec.
 
@@ -16,7 +18,26 @@ Definition ErrNoProgress : Z := 11.         (* io.ErrNoProgress: device id with 
 Definition ErrTagsTooLarge : Z := 12.
 
 Record packet := mkP {
-  p_id : Z; p_job : Z; p_flags : Z; p_tags : list Z; p_dev : list Z; p_pay : list Z }.
+  p_id : Z; p_job : Z; p_flags : Z; p_tags : list Z; p_dev : list Z; p_pay : list Z; p_rpos : Z }.
+
+(* ---- the cursor of the payload Chunk (data/chunk.go, data/chunk_base.go) --------- *)
+Definition set_rpos (k : Z) (p : packet) : packet :=
+  mkP (p_id p) (p_job p) (p_flags p) (p_tags p) (p_dev p) (p_pay p) k.
+(* Seek(0, 0): always succeeds *)
+Definition rewind (p : packet) : packet := set_rpos 0 p.
+(* Chunk.Size() = len(buf); Chunk.Empty() = len(buf) <= rpos (also true for a buffer that was
+   consumed to its end) *)
+Definition chunk_size (p : packet) : Z := len (p_pay p).
+Definition chunk_empty (p : packet) : bool := len (p_pay p) <=? p_rpos p.
+(* the unread part buf[rpos:]: Payload(), and what Chunk.MarshalStream writes *)
+Definition unread_bytes (p : packet) : list Z := drop (p_rpos p) (p_pay p).
+(* the packet a reader of the nested form reconstructs: the unread part as a fresh buffer *)
+Definition unread (p : packet) : packet :=
+  mkP (p_id p) (p_job p) (p_flags p) (p_tags p) (p_dev p) (unread_bytes p) 0.
+(* Chunk.WriteTo: nothing when Empty(), else buf[rpos:] in pieces of bufSize bytes (their
+   concatenation), and the cursor ends at len(buf) *)
+Definition write_to (p : packet) : list Z := if chunk_empty p then [] else unread_bytes p.
+Definition after_write_to (p : packet) : packet := if chunk_empty p then p else set_rpos (chunk_size p) p.
 
 (* ---- com/flag.go: the exact Go expressions on a 64-bit word ---------------- *)
 Definition FlagFrag : Z := 1.
@@ -66,21 +87,30 @@ Fixpoint write_tags (ts : list Z) : res (list Z) :=
   | t :: r => if t =? 0 then Err ErrMalformedTag else do b <- write_tags r; Ok (be32 t ++ b)
   end.
 
-(* writeBody: tags, then Chunk.WriteTo (pieces of bufSize bytes; their concatenation is the payload) *)
+(* writeBody: tags, then `p.Seek(0, 0)`, nothing more when Chunk.Size() == 0, else Chunk.WriteTo
+   from the rewound cursor.  The header announces Chunk.Size() bytes whatever the cursor is. *)
 Definition write_body (p : packet) : res (list Z) :=
-  do tb <- write_tags (p_tags p); Ok (tb ++ p_pay p).
+  do tb <- write_tags (p_tags p);
+  let p0 := rewind p in
+  if chunk_size p0 =? 0 then Ok tb else Ok (tb ++ write_to p0).
 
 Definition marshal (p : packet) : res (list Z) :=
   do h <- write_header p; do b <- write_body p; Ok (h ++ b).
+
+(* the packet after a successful Marshal: rewound, then WriteTo moved the cursor to the end *)
+Definition after_marshal (p : packet) : packet :=
+  let p0 := rewind p in if chunk_size p0 =? 0 then p0 else after_write_to p0.
 
 (* the bytes of a well-formed packet, as a pure function (marshal p = Ok (wire p), proved) *)
 Definition wire (p : packet) : list Z :=
   header_bytes p ++ concat (map be32 (p_tags p)) ++ p_pay p.
 
 (* Packet.Size(): the estimate used by the fragmenting and batching code; the length class is
-   chosen from the TOTAL (payload + 46 + 4*tags), and an empty payload ignores the tags *)
+   chosen from the TOTAL (payload + 46 + 4*tags), and an empty payload ignores the tags.  It
+   starts with p.Empty(): a packet whose buffer was consumed to the end counts as a bare header,
+   otherwise the WHOLE buffer counts (Chunk.Size()), not the unread part *)
 Definition size (p : packet) : Z :=
-  if len (p_pay p) =? 0 then PacketHeaderSize
+  if chunk_empty p then PacketHeaderSize
   else let s := len (p_pay p) + PacketHeaderSize + 4 * len (p_tags p) in
        if s <? LimitSmall then s + 1 else if s <? LimitMedium then s + 2
        else if s <? LimitLarge then s + 4 else s + 8.
@@ -152,7 +182,7 @@ Definition unmarshal (s : src) : res (packet * src) :=
   do '((d, id, job, fl, nt, l), s1) <- read_header s;
   do '(ts, s2) <- read_tags (Z.to_nat nt) s1;
   do '(pay, s3) <- (if l =? 0 then Ok ([], s2) else read_body (body_fuel s2) l s2 [] true);
-  Ok (mkP id job fl ts d pay, s3).
+  Ok (mkP id job fl ts d pay 0, s3).
 
 (* a reader loop: packets until the stream is exhausted *)
 Fixpoint unmarshal_many (fuel : nat) (s : src) : res (list packet) :=
@@ -167,10 +197,11 @@ Fixpoint unmarshal_many (fuel : nat) (s : src) : res (list packet) :=
 
 (* ---- the nested (stream) form: typed codec of Model/Codec.v -------------------- *)
 (* MarshalStream: u8 id, u16 job, u16 uint16(len tags), u64 flags, 32 raw bytes, at most
-   PacketMaxTags tags as u32 (a zero tag is NOT refused here), Bytes payload *)
+   PacketMaxTags tags as u32 (a zero tag is NOT refused here), then Chunk.MarshalStream =
+   WriteBytes(buf[rpos:]): the UNREAD part only; the cursor does not move *)
 Definition marshal_stream (p : packet) : list Z :=
   enc_u8 (p_id p) ++ enc_u16 (p_job p) ++ enc_u16 (u16 (len (p_tags p))) ++ enc_u64 (p_flags p)
-  ++ p_dev p ++ concat (map enc_u32 (take PacketMaxTags (p_tags p))) ++ enc_bytes (p_pay p).
+  ++ p_dev p ++ concat (map enc_u32 (take PacketMaxTags (p_tags p))) ++ enc_bytes (unread_bytes p).
 
 (* ID.Read over the Chunk reader *)
 Definition rd_dev (s : list Z) : res (list Z * list Z) :=
@@ -201,7 +232,7 @@ Definition unmarshal_stream (s : list Z) : res (packet * list Z) :=
   do '(d, r5) <- rd_dev r4;
   do '(ts, r6) <- rd_tags (Z.to_nat (Z.min t PacketMaxTags)) r5;
   do '(pay, r7) <- rd_bytes r6;
-  Ok (mkP id job fl (ts ++ tags_pad t) d pay, r7).
+  Ok (mkP id job fl (ts ++ tags_pad t) d pay 0, r7).
 
 Fixpoint unmarshal_stream_many (fuel : nat) (s : list Z) : res (list packet) :=
   match s with
@@ -231,7 +262,7 @@ Definition unmarshal_srd (s : src) : res (packet * src) :=
   do '(d, r5) <- read_device r4;
   do '(ts, r6) <- srd_tags (Z.to_nat (Z.min t PacketMaxTags)) r5;
   do '(pay, r7) <- srd_bytes r6;
-  Ok (mkP id job fl (ts ++ tags_pad t) d pay, r7).
+  Ok (mkP id job fl (ts ++ tags_pad t) d pay 0, r7).
 
 (* ---- well-formed packets (the domain of the round-trip theorems) ----------------- *)
 Definition nonzero_tag (t : Z) : bool := (0 <? t) && (t <? 4294967296).
@@ -241,7 +272,8 @@ Definition wf (p : packet) : bool :=
   && forallb nonzero_tag (p_tags p) && (len (p_tags p) <=? PacketMaxTags)
   && (len (p_dev p) =? IDSize) && bytes_ok (p_dev p)
   && (match p_dev p with b :: _ => negb (b =? 0) | [] => false end)
-  && bytes_ok (p_pay p) && (len (p_pay p) <? 9223372036854775808).
+  && bytes_ok (p_pay p) && (len (p_pay p) <? 9223372036854775808)
+  && (0 <=? p_rpos p) && (p_rpos p <=? len (p_pay p)).
 (* the stream form goes through Chunk.Bytes / make([]byte, l): payload at most MaxSlice *)
 Definition wf_stream (p : packet) : bool := wf p && (len (p_pay p) <=? MaxSlice).
 
@@ -285,7 +317,7 @@ Definition sexp (l : list seg) : list Z := concat (map seg_exp l).
 
 Inductive pdesc := PD (id job flags : Z) (tags : tdesc) (dev : list Z) (payload : bdesc).
 Definition pexp (d : pdesc) : packet :=
-  match d with PD id job fl t dv b => mkP id job fl (texp t) dv (bexp b) end.
+  match d with PD id job fl t dv b => mkP id job fl (texp t) dv (bexp b) 0 end.
 
 (* how the test reader splits the bytes: explicit chunk sizes (0 = a (0, nil) read), the rest
    in one chunk; or chunks of k bytes throughout *)
@@ -323,11 +355,17 @@ Inductive case :=
 | CUnmarshalStream (input : list seg) (out : res (pdesc * Z))
 | CStreamMany (input : list seg) (out : res (list pdesc))
 | CUnmarshalSrd (input : list seg) (sp : splitd) (out : res (pdesc * Z))
-| CFlag (op f n out : Z).
+| CFlag (op f n out : Z)
+(* a packet whose payload Chunk has its read cursor at cur: Marshal (bytes, and the cursor it
+   leaves behind, observed as Size() - Remaining()), Size(), MarshalStream *)
+| CMarshalCur (p : pdesc) (cur : Z) (out : res (Z * Z)) (lit : option (list Z)) (cur_after : Z)
+| CSizeCur (p : pdesc) (cur : Z) (sz : Z)
+| CMarshalStreamCur (p : pdesc) (cur : Z) (n sum : Z) (lit : option (list Z)).
 
 Definition packet_eqb (a b : packet) : bool :=
   (p_id a =? p_id b) && (p_job a =? p_job b) && (p_flags a =? p_flags b)
-  && zlist_eqb (p_tags a) (p_tags b) && zlist_eqb (p_dev a) (p_dev b) && zlist_eqb (p_pay a) (p_pay b).
+  && zlist_eqb (p_tags a) (p_tags b) && zlist_eqb (p_dev a) (p_dev b) && zlist_eqb (p_pay a) (p_pay b)
+  && (p_rpos a =? p_rpos b).
 
 Definition bytes_match (b : list Z) (n sum : Z) (lit : option (list Z)) : bool :=
   (len b =? n) && (cksum b =? sum) && (match lit with Some l => zlist_eqb b l | None => true end).
@@ -376,4 +414,13 @@ Definition check (c : case) : bool :=
   | CUnmarshalSrd input sp out =>
     pout_eqb (do '(p, r) <- unmarshal_srd (split sp (sexp input)); Ok (p, src_len r)) out
   | CFlag op f n out => flag_op op f n =? out
+  | CMarshalCur p cur out lit cur_after =>
+    let q := set_rpos cur (pexp p) in
+    match marshal q, out with
+    | Ok b, Ok (n, sum) => bytes_match b n sum lit && (p_rpos (after_marshal q) =? cur_after)
+    | Err e, Err f => e =? f
+    | _, _ => false
+    end
+  | CSizeCur p cur sz => size (set_rpos cur (pexp p)) =? sz
+  | CMarshalStreamCur p cur n sum lit => bytes_match (marshal_stream (set_rpos cur (pexp p))) n sum lit
   end.
